@@ -10,6 +10,9 @@ for f in sorted(glob.glob("/verif/seeded/*/meta.json")):
         else:
             nf = any("no-failing-input-found" in l for l in r["lines"])
             verdict = {0: "MISSED", 1: "caught" + (" (obligation only, no failing input)" if nf else " with replay"), 2: "infra error"}.get(r["exit"], str(r["exit"])) + " in %ds" % r["wall_s"]
+        th = (m.get("checks_thorough") or {}).get(c)
+        if isinstance(th, dict) and isinstance(r, dict) and r["exit"] == 1 and nf and th.get("exit") == 1 and not any("no-failing-input-found" in l for l in th["lines"]):
+            verdict += "; thorough tier: with replay in %ds" % th["wall_s"]
         rows.append((m["property"] + "-" + m["variant"], "yes" if m["confirmed"] else "NO", c, verdict, (m.get("summary") or "")[:160].replace("|", "/"), (m.get("needs") or "")[:140].replace("|", "/")))
 with open("/verif/seeded/SUMMARY.md", "w") as f:
     f.write("# Seeded changes and the checks' verdicts\n\nEach change was produced by an independent sub-agent that saw only the property text and a scratch worktree; "
@@ -17,4 +20,4 @@ with open("/verif/seeded/SUMMARY.md", "w") as f:
     f.write("| id | confirmed | check | verdict | change | needs |\n|---|---|---|---|---|---|\n")
     for r in rows:
         f.write("| %s | %s | %s | %s | %s | %s |\n" % r)
-print(len(rows), "rows;", sum(1 for r in rows if r[3].startswith("caught")), "caught")
+print(len(rows), "rows;", sum(1 for r in rows if r[3].startswith("caught")), "caught;", sum(1 for r in rows if "obligation only" in r[3]), "obligation only (quick);", sum(1 for r in rows if r[3].startswith("MISSED")), "missed")
